@@ -241,7 +241,7 @@ def c07_judge(tier, batches, results, cov, judged):
         var = st[key + ".s2"] / n - mean * mean
         kurt = (st[key + ".s4"] / n) / (var * var) - 3 if var > 0 else 0.0
         c = 1.5 if kind in ("tlwe", "tgsw", "bkrow") else 0.0   # rounding of the FFT product inside TLWE encryption (measured 0.6 unit^2)
-        lo = max(0.0, 1 - 0.8 / su + 1 / (3 * su * su))          # sampler truncates towards zero
+        lo = max(0.0, 1 - 0.8 / su + 1 / (3 * su * su)) if su >= 2 else 0.0   # sampler truncates towards zero (model valid for sigma >= 2 units)
         hi = 1 + (1.0 / 12 + c) / (su * su)                      # round-to-nearest model (+ FFT rounding)
         se = max(var, 1e-9) * math.sqrt((2.0 + max(kurt, 0.0)) / n)
         ok_var = lo - 8 * se <= var <= hi + 8 * se
@@ -427,6 +427,10 @@ def c18_batches(tier):
         for var in ("optim", "debug"):
             bs.append(B("mix-%s-%s" % (be, var), "iofault", be, var, (40 if q else 800) * (1 if var == "optim" else 0.5), spec="swarm:4", specpool=3,
                         fmode="mix", attempts=40, weight=15 if q else 150))
+    # the same faults against sanitizer builds: an out-of-bounds access while parsing kills the worker with a report
+    for be in (["spqlios-fma", "fftw"] if q else BACKENDS):
+        for var in (["optim-asan"] if q else ["optim-asan", "debug-asan"]):
+            bs.append(B("mix-%s-%s" % (be, var), "iofault", be, var, 20 if q else 400, spec="swarm:4", specpool=2, fmode="mix", attempts=40, weight=25 if q else 150, max_procs=3))
     for spec in ("P128", "P80"):
         bs.append(B("mix-%s" % spec, "iofault", "spqlios-fma", "optim", 2 if q else 16, spec=spec, fmode="mix", attempts=5,
                     kind="CloudKeySet" if spec == "P128" else "SecretKeySet", weight=60 if q else 300, det_count=1, max_procs=2 if q else 8))
